@@ -533,6 +533,111 @@ def tr_sites(tc):
     return out
 
 
+# ------------------------------------------------------------------------------------------------ which expressions inside a TYPE are checked
+
+CHILD0_RE = re.compile(r'^(?:if \([^{}]*\) \{ handleError\(type, "\$[\w-]+"\); \} )?checkType\(type\[0\], (?:initialisable|true), inStruct\); break;$')
+RANGE_BOUND = ('if (checkExpression(%(b)s)) { if (!is_integer(%(b)s)) { handleError(%(b)s, "$Integer_expected"); } '
+               'if (!isCompileTimeComputable(%(b)s)) { handleError(%(b)s, "$Must_be_computable_at_compile_time"); } } ')
+RANGE_BODY = ('if (!type.is_integer() && !type.is_scalar()) { handleError(type, "$Range_over_this_type_not_allowed"); } '
+              'std::tie(l, u) = type.get_range(); ' + RANGE_BOUND % {"b": "l"} + RANGE_BOUND % {"b": "u"} + "break;")
+ARRAY_BODY = ('size = type.get_array_size(); if (!size.is(RANGE)) { handleError(type, "$Invalid_array_size"); } else { checkType(size); } '
+              'checkType(type[0], initialisable, inStruct); break;')
+RECORD_BODY = "for (size_t i = 0; i < type.size(); i++) { checkType(type.get_sub(i), true, true); } break;"
+LEAF_BODIES = ("break;", 'if (inStruct) { handleError(type, "$This_type_cannot_be_declared_inside_a_struct"); }',
+               'if (initialisable) { handleError(type, "$This_type_cannot_be_declared_const_or_meta"); }')
+
+
+def tr_check_type(tc):
+    """TypeChecker::checkType: per case label what happens to the children of the type --
+    child0 (checkType(type[0], ..)), bounds (both bounds of a RANGE through checkExpression + isCompileTimeComputable),
+    sizeElem (ARRAY: checkType(size) and checkType(type[0], ..)), fields (RECORD: every field), nothing."""
+    body = function_body(tc, r"void\s+TypeChecker::checkType\s*\(\s*type_t\s+type\s*,\s*bool\s+initialisable\s*,\s*bool\s+inStruct\s*\)\s*\{", "TypeChecker::checkType")
+    m = re.search(r"switch\s*\(\s*type\.get_kind\(\)\s*\)\s*\{", body)
+    if not m:
+        raise TranslateError("TypeChecker::checkType: switch (type.get_kind()) not found")
+    i = m.end() - 1
+    j = match_brace(body, i)
+    if norm(body[:m.start()]) != "expression_t l, u; type_t size; frame_t frame;" or norm(body[j:]) != "":
+        raise TranslateError("TypeChecker::checkType: unexpected code around the switch: %r / %r" % (norm(body[:m.start()]), norm(body[j:])))
+    rows = []
+    for labels, b in split_cases(body[i + 1:j - 1], "TypeChecker::checkType"):
+        if CHILD0_RE.match(b):
+            act = "child0"
+        elif b == RANGE_BODY:
+            act = "bounds true true"
+        elif b == ARRAY_BODY:
+            act = "sizeElem true true"
+        elif b == RECORD_BODY:
+            act = "fields"
+        elif b in LEAF_BODIES:
+            act = "nothing"
+        else:
+            raise TranslateError("TypeChecker::checkType: unrecognised body for %r: %r" % (labels, b))
+        for l in labels:
+            if l != "default":
+                rows.append((l, act))
+    return rows
+
+
+def tr_check_type_sites(tc):
+    """every call `checkType(<type>)` of src/typechecker.cpp outside checkType itself, as (member function, case labels of the
+    enclosing switch group or '', normalised argument)"""
+    out = []
+    defs = [(m.group(1), m.end() - 1) for m in re.finditer(r"\bTypeChecker::(\w+)\s*\([^;{}]*\)\s*(?:const\s*)?\{", tc)]
+    for name, i in defs:
+        if name == "checkType":
+            continue
+        j = match_brace(tc, i)
+        fbody = tc[i:j]
+        for m in re.finditer(r"\bcheckType\(", fbody):
+            k, depth = m.end(), 1
+            while k < len(fbody) and depth:
+                depth += {"(": 1, ")": -1}.get(fbody[k], 0)
+                k += 1
+            arg = norm(fbody[m.end():k - 1])
+            # the run of case labels that opens the switch group the call stands in (nearest labels before the call)
+            labs = list(re.finditer(r"\bcase\s+([A-Za-z_][\w:]*)\s*:", fbody[:m.start()]))
+            group = []
+            if name == "checkExpression" and labs:
+                group = [labs[-1].group(1).split("::")[-1]]
+                end = labs[-1].start()
+                for l in reversed(labs[:-1]):
+                    if fbody[l.end():end].strip():
+                        break
+                    group.insert(0, l.group(1).split("::")[-1])
+                    end = l.start()
+            out.append((name, "+".join(group), arg))
+    if not out:
+        raise TranslateError("src/typechecker.cpp: no call of checkType found")
+    return out
+
+
+STRIP_ARRAY_BODY = "type_t type = strip(); while (type.get_kind() == ARRAY) { type = type.get(0).strip(); } return type;"
+VISIT_VARIABLE_RE = re.compile(r"void\* data = frame\[i\]\.get_data\(\); type = type\.strip_array\(\); if \(\((.*?)\) && data != nullptr\) "
+                               r"\{ visitor\.visitVariable\(\*static_cast<variable_t\*>\(data\)\); \}")
+
+
+def tr_variable_visit(repo):
+    """type_t::strip_array strips at EVERY array level (typedef names and prefixes between two levels included), and the frame
+    walk of Document::accept classifies a symbol by strip_array(): -> base kinds for which visitVariable is called"""
+    ty = read(repo, "src/type.cpp")
+    body = norm(function_body(ty, r"type_t\s+type_t::strip_array\s*\(\s*\)\s*const\s*\{", "type_t::strip_array"))
+    if body != STRIP_ARRAY_BODY:
+        raise TranslateError("type_t::strip_array: unrecognised shape: %r" % body)
+    doc = read(repo, "src/document.cpp")
+    vbody = norm(function_body(doc, r"static\s+void\s+visit\s*\(\s*DocumentVisitor&\s*visitor\s*,\s*frame_t\s+frame\s*\)\s*\{", "visit(DocumentVisitor&, frame_t)"))
+    m = VISIT_VARIABLE_RE.search(vbody)
+    if not m:
+        raise TranslateError("document.cpp visit(): the variable branch (strip_array, kinds, visitVariable) has an unrecognised shape")
+    kinds = []
+    for d in m.group(1).split("||"):
+        mm = re.match(r"^type\.is\((?:Constants::)?(\w+)\)$|^type\.get_kind\(\) == (?:Constants::)?(\w+)$", d.strip())
+        if not mm:
+            raise TranslateError("document.cpp visit(): unrecognised disjunct %r in the variable branch" % d.strip())
+        kinds.append(mm.group(1) or mm.group(2))
+    return kinds
+
+
 # ------------------------------------------------------------------------------------------------ emit
 
 def lk(n):
@@ -609,6 +714,9 @@ def translate(repo="/repo", kind_names=None, strict_c13=True):
     vf = tr_visit_function(tc)
     ctc_random = tr_ctc(tc)
     sites = tr_sites(tc)
+    ct_rows = tr_check_type(tc)
+    ct_sites = tr_check_type_sites(tc)
+    var_kinds = tr_variable_visit(repo)
     c13_errors = []
     try:
         deps_follow = tr_restricted(repo)
@@ -625,7 +733,7 @@ def translate(repo="/repo", kind_names=None, strict_c13=True):
         c13_errors.append(str(ex_))
         arg_value, arg_constref = False, False
     if kind_names is not None:
-        for k in [k for k, _ in gs] + w_lhs + w_call + r_call + r_rnd:
+        for k in [k for k, _ in gs] + w_lhs + w_call + r_call + r_rnd + [k for k, _ in ct_rows] + var_kinds:
             if k not in kind_names:
                 raise TranslateError("case label %s is not an enumerator of kind_t" % k)
     # statement classes: exactly the modelled ones, with exactly the modelled fields
@@ -658,7 +766,8 @@ def translate(repo="/repo", kind_names=None, strict_c13=True):
     b = lambda x: "true" if x else "false"  # noqa: E731
     L = ["/- GENERATED by translate/effects.py from src/expression.cpp, include/utap/statement.h, src/statement.cpp and",
          "   src/typechecker.cpp of the current working tree -- do not edit.  Regenerated on every run of C11 / C13. -/",
-         "import UtapModel.Model.EffectCfg", "namespace UtapModel.EffectGen", "open UtapModel UtapModel.Effect", "",
+         "import UtapModel.Model.EffectCfg", "import UtapModel.Model.TypeWalk", "namespace UtapModel.EffectGen",
+         "open UtapModel UtapModel.Effect", "",
          "def genVisit : VisitFlags where"]
     L += ["  %s := %s" % (f, b(v)) for f, v in flags]
     L += ["", "def genCfg : Cfg where",
@@ -684,12 +793,18 @@ def translate(repo="/repo", kind_names=None, strict_c13=True):
           "  unrecognisedSites := %d" % other, "",
           "/-- statement classes found in include/utap/statement.h (all modelled; the translator fails closed otherwise) -/",
           "def statementClassCount : Nat := %d" % len(classes), "",
+          "/-- TypeChecker::checkType (children of a type that are checked), every call of checkType elsewhere in",
+          "    src/typechecker.cpp, and the base kinds for which the frame walk of Document::accept calls visitVariable -/",
+          "def genWalk : TypeWalk.WalkCfg where",
+          "  checkType := " + lean_list(["(%s, .%s)" % (lk(k), a) for k, a in ct_rows], 3),
+          "  sites := " + lean_list(['("%s", "%s", "%s")' % t for t in ct_sites], 1),
+          "  variableBaseKinds := " + lean_list([lk(k) for k in var_kinds]), "",
           "end UtapModel.EffectGen", ""]
     info = {"get_symbols": gs, "write_lhs": w_lhs, "write_call": w_call, "flags": w_flags, "read_call": r_call,
             "random": r_rnd, "classes": [c[0] for c in classes], "rows": rows, "visitFunction": vf, "sites": cnt,
             "unrecognisedSites": other, "visitFlags": dict(flags), "readsPropagatesRandom": r_prop,
             "dependsCollectsRandom": deps_random, "ctcCollectsRandom": ctc_random, "callAddsDepends": r_dep,
-            "c13_only_errors": c13_errors}
+            "c13_only_errors": c13_errors, "checkType_rows": len(ct_rows), "checkType_sites": len(ct_sites)}
     return "\n".join(L), info
 
 
